@@ -3216,6 +3216,11 @@ func ruleOneHeaderRow(c *eng.Ctx) {
 				if x.Op == token.ADD && isStringValue(x) {
 					ops = []ssa.Value{x.X, x.Y}
 				}
+			case *ssa.Store:
+				// an element of the argument list of append(parts, " --- |")
+				if _, isEl := x.Addr.(*ssa.IndexAddr); isEl {
+					ops = []ssa.Value{x.Val}
+				}
 			}
 			for _, o := range ops {
 				if s, ok := eng.ConstString(o); ok && strings.Contains(s, "---") {
